@@ -44,6 +44,9 @@ macro_rules! kani_cover { ($($t:tt)*) => {} }
 
 MAIN = r'''
 // native replay driver: vp_replay <harness> <hexbytes,hexbytes,...>
+#[cfg(kani)]
+fn main() {}
+#[cfg(not(kani))]
 fn main() {
     let a: Vec<String> = std::env::args().collect();
     let vals: Vec<Vec<u8>> = if a.len() > 2 && !a[2].is_empty() {
@@ -149,7 +152,7 @@ def run_kani(crate_dir, harnesses, jobs=8, timeout=3600, extra=(), per_harness_t
     env = dict(os.environ, CARGO_NET_OFFLINE="true")
     cmd = ["cargo", "kani"] + KANI_FLAGS + ["--output-format", "terse", "-j", str(jobs)] + list(extra)
     if per_harness_timeout:
-        cmd += ["--harness-timeout", "%ds" % per_harness_timeout]
+        cmd += ["-Z", "unstable-options", "--harness-timeout", "%ds" % per_harness_timeout]
     for h in harnesses:
         cmd += ["--harness", h]
     t0 = time.time()
